@@ -1,8 +1,11 @@
 #!/bin/bash
-# try_seed.sh <seed-id> <property> [tier]: apply a seeded change to /repo, run the check, undo it
+# try_seed.sh <seed-id> <property> [tier]: apply a seeded change, run the check, undo it.
+# By default the change is applied to /repo itself; with SEED_REPO=<scratch worktree of /repo> it is applied there and the
+# check is pointed at that tree (CV_REPO), so that /repo stays untouched while a long matrix runs.
 id="$1"; pid="$2"; tier="${3:-quick}"
-git -C /repo apply /verif/seeded/$id/patch.diff || exit 2
-cd /verif && timeout 3000 ./check $pid --tier $tier > /tmp/try-$id-$pid.out 2>&1; rc=$?
-git -C /repo checkout -- .
+repo="${SEED_REPO:-/repo}"
+git -C "$repo" apply /verif/seeded/$id/patch.diff || exit 2
+cd /verif && CV_REPO="$repo" timeout 3000 ./check $pid --tier $tier > /tmp/try-$id-$pid.out 2>&1; rc=$?
+git -C "$repo" checkout -- .
 echo "$id on $pid: exit=$rc; $(grep -c '^VIOLATION' /tmp/try-$id-$pid.out) violation lines; $(grep '^VIOLATION' /tmp/try-$id-$pid.out | head -1)"
-[ -n "$(git -C /repo status --short)" ] && echo "WARNING: /repo not clean"
+[ -n "$(git -C "$repo" status --short)" ] && echo "WARNING: $repo not clean"
